@@ -76,7 +76,7 @@ fn coordinate_to_name_cols() {
 }
 // (Err for col >= 16384: a harness with a symbolic out-of-range column did not finish in 7 min; the clause is carried by the Verus unit
 // `shared` through column_number_to_name's contract proved in unit a1.)
-/// C06: no panic for any coordinate (fails: `cell.0 + 1` overflows for row == u32::MAX, which offset_cell_name produces from a negative offset)
+/// C06: no panic for any coordinate, in particular row == u32::MAX (`cell.0 as u64 + 1`)
 #[kani::proof]
 #[kani::unwind(12)]
 fn coordinate_to_name_total() {
